@@ -636,8 +636,11 @@ def run(P, rep, tier):
                        '(structural induction over the initializer tree); the sub-objects they visit, the bytes they store, the relocation cursor they thread, '
                        'the address-constant arms of eval2/eval_rval, string_initializer, lvar_initializer/gvar_initializer, init_desg_expr, the ND_MEMZERO/ND_COMMA arms of '
                        'gen_expr and the image walk of emit_data are compared with oracles transcribed from C11 6.7.9. Of the designator/brace-elision cursor logic of the '
-                       'parser only the resume position after a designator (R05.8, sibling agreement of the cursor-walk functions) and whole-aggregate copy initialisation '
-                       'are decided; the token-stream dependent rest (brace elision, excess elements, flexible members) is not.')
+                       'parser only the resume position after a designator (R05.8, sibling agreement of the cursor-walk functions), whole-aggregate copy initialisation, '
+                       'the completion of arrays of unknown bound / flexible array members (R05.9: declared element type, length from the initializer, final type handed to '
+                       'the object) and the override of an earlier initializer of the same sub-object by a later one (R05.10: union member selection, scalar expression, '
+                       'whole-struct copy expression) are decided; the token-stream dependent rest (brace elision, excess elements) is not, nor is the reset of '
+                       'individual members when a whole aggregate sub-object is initialised a second time by a list.')
     rep.assumptions += ['calloc succeeds', 'loops over members/elements are analysed for 0..2 generic iterations; the facts checked are per-iteration facts',
                         'bit-field members have an integer type of size 1, 2, 4 or 8',
                         'formula rules compare normalised terms (commutativity of | and &); an equivalent rewrite outside that form would be reported']
@@ -663,6 +666,8 @@ def run(P, rep, tier):
     r055(P, rep)
     r053(P, u, E, rep)
     r056(P, u, E, cat, rep)
+    r059(P, u, E, cat, rep)
+    r0510(P, u, E, rep)
 
 
 # ------------------------------------------------------------------------------------------------
@@ -1762,3 +1767,461 @@ def r052_lvar(P, u, E, cat, rep):
                    'an index designator does not become `*(outer + idx)` with the designated index (the assignment would go to another element)', where=where)
     if seen != {'var', 'member', 'index'}:
         rep.undecided('R05.1', '%s:%s' % (U, fn), 'designator forms recognised: %s' % sorted(seen))
+
+
+# ------------------------------------------------------------------------------------------------
+# R05.9 completion of an array of unknown bound / flexible array member (C11 6.7.9p22): the completed type keeps the
+# DECLARED element type and gets the length the initializer determines; the completed type reaches the variable
+# ------------------------------------------------------------------------------------------------
+def _completion_models(E):
+    def m_array_of(it, ctx, n, a):
+        t = Obj('Type', lazy=True, label=ctx.fresh('array_of'))
+        t.fields['kind'] = E['TY_ARRAY']
+        t.fields['base'] = a[0] if a else None
+        t.fields['array_len'] = a[1] if len(a) > 1 else None
+        ctx.emit('array_of', a, t, n.line)
+        return t
+
+    def m_new_initializer(it, ctx, n, a):
+        i = Obj('Initializer', lazy=True, label=ctx.fresh('new-initializer'))
+        i.fields['ty'] = a[0] if a else None
+        flex = a[1] if len(a) > 1 else 0
+        # new_initializer(ty, false) never yields a flexible initializer; (ty, true) does when ty is incomplete
+        i.fields['is_flexible'] = 0 if is_null(flex) or flex is False else View(Cell([0, 1], ctx.fresh('new-initializer.is_flexible')))
+        i.fields['expr'] = 0
+        i.fields['mem'] = 0
+        ctx.emit('new_init', a, i, n.line)
+        return i
+    return {'array_of': m_array_of, 'new_initializer': m_new_initializer}
+
+
+def _flex_sites(u):
+    """functions that test Initializer.is_flexible (the sites that complete an array of unknown bound)"""
+    out = []
+    for name, f in u.functions.items():
+        for m in f.find('MemberExpr'):
+            if m.name == 'is_flexible' and 'Initializer' in ((m.inner[0].dtype or m.inner[0].type or '') if m.inner else ''):
+                par = m.parent
+                is_store = par is not None and par.kind == 'BinaryOperator' and par.opcode == '=' and par.inner and par.inner[0] is m
+                if not is_store:
+                    out.append(name)
+                    break
+    return sorted(out)
+
+
+def r059(P, u, E, cat, rep):
+    rep.rule('R05.9', 'an array of unknown bound / flexible array member is completed to an array of its DECLARED element type whose length is determined by the '
+             'initializer (literal length incl. terminator, or the counted elements), at every site that completes it; the completed type is handed on to the object', floor=7)
+    SITES = {'string_initializer': 'string', 'array_initializer1': 'list', 'array_initializer2': 'list'}
+    found = _flex_sites(u)
+    for f in found:
+        if f not in SITES and not any(u.fn(s_).calls(f) for s_ in SITES if u.fn(s_) is not None):
+            rep.undecided('R05.9', '%s:%s:unknown-bound' % (U, f), 'function %s tests Initializer.is_flexible but is not one of the completion sites this rule interprets' % f)
+    models = _cursor_models()
+    models.update(_completion_models(E))
+
+    def m_skip(it_, ctx, n_, a):
+        # skip(tok, "x") is tok->next (or a diagnostic)
+        t = settle(it_, a[0]) if a else None
+        r = it_.read_field(t, 'next') if isinstance(t, Obj) else Obj('Token', lazy=True, label=ctx.fresh('skip'))
+        ctx.emit('call', 'skip', a, n_.line, r)
+        return r
+    models['skip'] = m_skip
+    for fn, how in SITES.items():
+        if fn not in u.functions:
+            raise AnalysisBroken('anchor function %s vanished from %s' % (fn, U))
+        it = TInterp(P, u, {'models': models, 'opaque': ['consume_end', 'consume', 'is_end', 'count_array_init_elements', 'skip_excess_element'],
+                            'loop_limit': 2 if how == 'string' else 1, 'lazy_field': children_hook(), 'track_stores': True})
+
+        def mk(ctx, fn=fn):
+            init = Obj('Initializer', lazy=True, label='init')
+            ty = Obj('Type', lazy=True, label='init.ty')
+            ty.fields['kind'] = E['TY_ARRAY']
+            ty.fields['base'] = Obj('Type', lazy=True, label='declared-element-type')
+            ty.fields['base'].fields['size'] = View(Cell([1, 2, 4], 'declared-element-type.size'))
+            init.fields['ty'] = ty
+            init.fields['is_flexible'] = 1
+            tok = Obj('Token', lazy=True, label='tok')
+            tt = Obj('Type', lazy=True, label='tok.ty')
+            tt.fields['array_len'] = Sym('tok.ty.array_len', 'int')
+            tt.fields['base'] = Obj('Type', lazy=True, label='literal-element-type')
+            tok.fields['ty'] = tt
+            ctx.root_init, ctx.tok, ctx.ty0 = init, tok, ty
+            ctx.slot = _Slot()
+            a = [_Ref(ctx.slot), tok, init]
+            if fn == 'array_initializer2':
+                a.append(0)
+            return a
+        n = 0
+        for ctx, out in it.explore(fn, mk):
+            if out[0] != 'ret':
+                continue
+            n += 1
+            init, ty0, tok = ctx.root_init, ctx.ty0, ctx.tok
+            where = _w(u, fn)
+            nt = settle(it, init.fields.get('ty'))
+            fl = settle(it, init.fields.get('is_flexible'))
+            ok, msg, construct = True, '', 'completed'
+            kind = field(nt, 'kind') if isinstance(nt, Obj) else None
+            if nt is ty0 or not is_null(fl):
+                ok = False; construct = 'not-completed'
+                msg = '%s returns with the initializer of an array of unknown bound still incomplete (type unchanged or is_flexible still set): no elements exist to receive the values' % fn
+            elif not isinstance(nt, Obj):
+                ok = False; construct = 'completed-type-unknown'; msg = 'the completed type of an array of unknown bound is %s' % show(nt)
+            elif not same(it, nt.fields.get('base'), ty0.fields['base']):
+                ok = False; construct = 'element-type-not-declared-base'
+                msg = ('%s completes an array of unknown bound to a type whose element type is %s instead of the declared element type init->ty->base%s: the elements of the object '
+                       'silently change type (signedness/size) behind the declaration, e.g. `unsigned char x[] = "\\xff"` reads back -1 instead of 255'
+                       % (fn, show(nt.fields.get('base')), ' (the type of the string literal is used as the type of the object)' if nt is field(tok, 'ty') else ''))
+            elif isinstance(kind, int) and kind != E['TY_ARRAY']:
+                ok = False; construct = 'completed-type-not-an-array'; msg = 'the completed type of an array of unknown bound is not an array type'
+            elif not isinstance(kind, int):
+                rep.undecided('R05.9', '%s:%s:unknown-bound/completed-type-kind' % (U, fn), 'the completed type is not built by array_of(): its kind is not known', where=where)
+                continue
+            else:
+                ln, _ = strip_cast(nt.fields.get('array_len'))
+                if how == 'string':
+                    want = tok.fields['ty'].fields['array_len']
+                    if not lin_eq(ln, want):
+                        ok = False; construct = 'length-not-literal-length'
+                        msg = 'the completed array has length %s, expected the length of the literal including its terminator (tok->ty->array_len)' % show(ln)
+                    else:
+                        sts = [e for e in ctx.events if e[0] == 'fstore' and e[2] == 'expr']
+                        if not _exact(ctx, want, len(sts)):
+                            ok = False; construct = 'element-count'
+                            msg = '%d code units are stored into an array completed from the literal on a path that does not establish that the literal has %d code units' % (len(sts), len(sts))
+                else:
+                    cnt = [e for e in ctx.events if e[0] == 'call' and e[1] == 'count_array_init_elements']
+                    mine = [e for e in cnt if e[4] is ln]
+                    walk = [e for e in ctx.events if e[0] == 'call' and e[1] in ('consume_end', 'is_end')]
+                    if not mine:
+                        ok = False; construct = 'length-not-counted-elements'
+                        msg = 'the completed array has length %s, which is not the number of elements counted by count_array_init_elements' % show(ln)
+                    else:
+                        a = mine[0][2]
+                        if len(a) < 2 or settle(it, a[1]) is not ty0:
+                            ok = False; construct = 'count-uses-other-type'
+                            msg = 'the elements of `T x[] = {...}` are counted against another type than the declared (incomplete) array type'
+                        elif walk:
+                            w0 = walk[0][2][-1] if walk[0][1] == 'consume_end' else walk[0][2][0]
+                            if not same(it, a[0], w0):
+                                ok = False; construct = 'count-starts-at-other-token'
+                                msg = 'the elements are counted from another token than the one at which the element walk then starts: the length does not belong to this list'
+            rep.ob('R05.9', '%s:%s:unknown-bound/%s' % (U, fn, construct), ok, msg, where=where, facts={'path': ctx.trail[-8:]})
+        if n == 0:
+            rep.undecided('R05.9', '%s:%s:unknown-bound' % (U, fn), 'no returning path completes an array of unknown bound')
+    _r059_initializer(P, u, E, rep)
+    _r059_gvar(P, u, E, rep)
+
+
+def _r059_initializer(P, u, E, rep):
+    """initializer(): the type handed back through *new_ty is the completed one"""
+    fn = 'initializer'
+    _need(u, fn)
+
+    def m_initializer2(it, ctx, n, a):
+        init = settle(it, a[2]) if len(a) > 2 else None
+        if not isinstance(init, Obj):
+            raise AnalysisBroken('initializer() no longer calls initializer2(rest, tok, init)')
+        # the parse may complete the (array) type of the initializer node, and that of the last child (flexible member)
+        done = Obj('Type', lazy=True, label='type-completed-by-parse')
+        ctx.before = init.fields.get('ty')
+        init.fields['ty'] = done
+        ctx.completed = done
+        _set_rest(it, ctx, a[0], 'tok-after-initializer')
+        ctx.emit('parse', a, init, n.line)
+        return None
+
+    def m_copy(it, ctx, n, a):
+        src = settle(it, a[0])
+        c = Obj('Type', lazy=True, label='copied-struct-type')
+        if isinstance(src, Obj):
+            for k in ('kind', 'size', 'is_flexible', 'align'):
+                if k in src.fields:
+                    c.fields[k] = src.fields[k]
+        ctx.emit('copy', a, c, n.line)
+        return c
+    models = dict(_completion_models(E))
+    models.update({'initializer2': m_initializer2, 'copy_struct_type': m_copy})
+    it = TInterp(P, u, {'models': models, 'loop_limit': 2, 'lazy_field': children_hook(), 'track_stores': True})
+
+    def mk(ctx):
+        ty = Obj('Type', lazy=True, label='declared-type')
+        ty.fields['size'] = Sym('declared-type.size', 'int')
+        ctx.ty0 = ty
+        ctx.slot = _Slot()
+        ctx.nslot = _Slot()
+        return [_Ref(ctx.slot), Obj('Token', lazy=True, label='tok'), ty, _Ref(ctx.nslot)]
+    seen = set()
+    for ctx, out in it.explore(fn, mk):
+        if out[0] != 'ret':
+            continue
+        where = _w(u, fn)
+        ty0 = ctx.ty0
+        r = settle(it, out[1])
+        parses = [e for e in ctx.events if e[0] == 'parse']
+        news = [e for e in ctx.events if e[0] == 'new_init']
+        good = len(parses) == 1 and len(news) >= 1 and r is parses[0][2] and r is news[0][2] and settle(it, news[0][1][0]) is ty0 and not is_null(news[0][1][1])
+        rep.ob('R05.9', '%s:%s:tree-is-flexible-initializer-of-declared-type' % (U, fn), bool(good),
+               'initializer() does not parse into, and return, new_initializer(declared type, /*is_flexible*/ true): an array of unknown bound could not be completed', where=where)
+        if not good:
+            continue
+        nt = settle(it, ctx.nslot.v)
+        copies = [e for e in ctx.events if e[0] == 'copy']
+        kind = field(ty0, 'kind')
+        flex = field(ty0, 'is_flexible')
+        aggregate = kind in (E['TY_STRUCT'], E['TY_UNION'])
+        if aggregate and flex == 1:
+            seen.add('flexible-member')
+            ok, msg, construct = True, '', 'flexible-member-type-and-size'
+            if not copies or nt is not copies[-1][2] or settle(it, copies[-1][1][0]) is not ty0:
+                ok = False; construct = 'flexible-struct-not-copied'
+                msg = 'a struct with a flexible array member is not given a private copy of its type as the final type (the shared struct type would be resized, or the size not updated)'
+            else:
+                mems, complete = members_walk(it, nt)
+                if not complete or not mems:
+                    ok = False; construct = 'last-member-not-found'; msg = 'the member list of the copied type is not walked to its last member'
+                else:
+                    last = mems[-1]
+                    ch = field(r, 'children')
+                    mt = settle(it, last.fields.get('ty'))
+                    src = [e for e in ctx.events if e[0] == 'fstore' and e[1] is last and e[2] == 'ty']
+                    child = None
+                    if isinstance(ch, Obj) and 'idx' in last.fields:
+                        k = vkey(last.fields['idx'])
+                        child = ch if k == 0 else ch.meta.get(('elem', k))
+                    if not src or not isinstance(child, Obj) or mt is None or not same(it, mt, child.fields.get('ty')):
+                        ok = False; construct = 'flexible-member-type'
+                        msg = 'the flexible array member (the last member) does not receive the completed type of its own initializer init->children[mem->idx]->ty'
+                    else:
+                        sz = field(mt, 'size') if isinstance(mt, Obj) else None
+                        want = lsum(ty0.fields['size'], sz) if sz is not None else None
+                        if want is None or not lin_eq(field(nt, 'size'), want):
+                            ok = False; construct = 'flexible-struct-size'
+                            msg = 'the final struct size is %s, expected declared size + size of the completed flexible member' % show(field(nt, 'size'))
+                stores0 = [e for e in ctx.events if e[0] == 'fstore' and e[1] is ty0]
+                if ok and stores0:
+                    ok = False; construct = 'shared-type-modified'; msg = 'the declared (shared) struct type itself is modified (field %s)' % stores0[0][2]
+            rep.ob('R05.9', '%s:%s:%s' % (U, fn, construct), ok, msg, where=where, facts={'path': ctx.trail[-8:]})
+        else:
+            seen.add('plain')
+            ok = nt is ctx.completed
+            rep.ob('R05.9', '%s:%s:final-type-is-the-completed-initializer-type' % (U, fn), ok,
+                   'initializer() hands back %s as the final type instead of init->ty as completed by the parse: `T x[] = {...}` keeps its incomplete type / gets another type'
+                   % ('the declared type' if nt is ty0 else show(nt)), where=where, facts={'path': ctx.trail[-8:]})
+    if seen != {'plain', 'flexible-member'}:
+        rep.undecided('R05.9', '%s:%s' % (U, fn), 'paths recognised: %s' % sorted(seen))
+
+
+def _r059_gvar(P, u, E, rep):
+    """the static object receives the completed type (the automatic one is checked by R05.3 variable-gets-final-type)"""
+    fn = 'gvar_initializer'
+
+    def h_write(it, ctx, n, a):
+        return Obj('Relocation', lazy=True, label='first-relocation')
+    it = TInterp(P, u, {'models': _init_models(None), 'cut': {'write_gvar_data': h_write}, 'track_stores': True})
+
+    def mk(ctx):
+        ctx.var = Obj('Obj', lazy=True, label='var')
+        ctx.slot = _Slot()
+        return [_Ref(ctx.slot), Obj('Token', lazy=True, label='tok'), ctx.var]
+    n = 0
+    for ctx, out in it.explore(fn, mk):
+        if out[0] != 'ret':
+            continue
+        n += 1
+        ini = [e for e in ctx.events if e[0] == 'initializer']
+        rep.ob('R05.9', '%s:%s:variable-gets-final-type' % (U, fn), len(ini) == 1 and field(ctx.var, 'ty') is ini[0][3],
+               'the static variable does not receive the completed type computed by initializer(): sizeof / .size / the image length would use the incomplete type', where=_w(u, fn))
+    if n == 0:
+        rep.undecided('R05.9', '%s:%s' % (U, fn), 'no returning path')
+
+
+# ------------------------------------------------------------------------------------------------
+# R05.10 a later initializer of the same sub-object overrides the earlier one (C11 6.7.9p19): what the parser functions leave
+# in the Initializer node (selected union member, scalar expression, whole-struct copy expression) is determined by the
+# initializer parsed NOW, whatever an earlier initializer of the same sub-object left there
+# ------------------------------------------------------------------------------------------------
+def _override_interp(P, u, E, equal_is=None, cut_designation=False):
+    models = _cursor_models(equal_is)
+    models.pop('initializer2', None)
+
+    def h_sub(name):
+        def f(it, ctx, n, a):
+            _set_rest(it, ctx, a[0], 'tok-after-' + name)
+            ctx.emit('sub', name, a, n.line)
+            return None
+        return f
+
+    def m_assign(it, ctx, n, a):
+        node = Obj('Node', lazy=True, label=ctx.fresh('assign-expr'))
+        _set_rest(it, ctx, a[0], 'tok-after-expr')
+        ctx.emit('assign', node, n.line)
+        return node
+    models['assign'] = m_assign
+    cut = {'initializer2': h_sub('initializer2')}
+    if cut_designation:
+        models.pop('designation', None)
+        cut['designation'] = h_sub('designation')
+    return TInterp(P, u, {'models': models, 'cut': cut,
+                          'opaque': ['skip', 'consume_end', 'consume', 'is_end', 'count_array_init_elements', 'new_initializer', 'array_of', 'skip_excess_element', 'add_type'],
+                          'loop_limit': 1, 'lazy_field': children_hook(), 'track_stores': True})
+
+
+def _mk_stale(E, kind_val):
+    """an Initializer node that an earlier initializer of the same sub-object may already have filled in"""
+    def mk(ctx):
+        init = Obj('Initializer', lazy=True, label='init')
+        ty = Obj('Type', lazy=True, label='init.ty')
+        ty.fields['kind'] = kind_val
+        init.fields['ty'] = ty
+        init.fields['is_flexible'] = 0
+        ctx.stale_expr = Obj('Node', lazy=True, label='expr-of-the-earlier-initializer')
+        ctx.stale_mem = Obj('Member', lazy=True, label='member-selected-by-the-earlier-initializer')
+        init.fields['expr'] = View(Cell([0, ctx.stale_expr], 'init.expr', names={0: 'NULL'}))
+        init.fields['mem'] = View(Cell([0, ctx.stale_mem], 'init.mem', names={0: 'NULL'}))
+        tok = Obj('Token', lazy=True, label='tok')
+        ctx.root_init = init
+        ctx.slot = _Slot()
+        return [_Ref(ctx.slot), tok, init]
+    return mk
+
+
+def _may_be(it, v, o):
+    """may the abstract value v be the object o on this path?"""
+    if isinstance(v, View):
+        return any(v.proj(c) is o for c in v.cell.cands)
+    return v is o
+
+
+def r0510(P, u, E, rep):
+    rep.rule('R05.10', 'a later initializer of the same sub-object overrides the earlier one: after an initializer has been parsed for a node, its selected union member / '
+             'scalar expression / whole-struct copy expression are those of THIS initializer, whatever an earlier one left in the node', floor=7)
+    fn = 'initializer2'
+    _need(u, fn, 'union_initializer', 'designation', 'struct_initializer1', 'struct_initializer2')
+    # ---- union: the selected member is the member whose child was parsed ---------------------------------
+    it = _override_interp(P, u, E)
+    seen = set()
+    for ctx, out in it.explore(fn, _mk_stale(E, E['TY_UNION'])):
+        if out[0] != 'ret':
+            continue
+        init = ctx.root_init
+        des = [e for e in ctx.events if e[0] == 'sdesig']
+        subs = [e for e in ctx.events if e[0] == 'sub' and e[1] in ('initializer2', 'designation')]
+        mem = init.fields.get('mem')
+        first = field(field(init, 'ty'), 'members') if isinstance(field(init, 'ty'), Obj) else None
+        where = _w(u, 'union_initializer')
+        form = 'designated' if des else 'plain'
+        seen.add(form)
+        key = '%s:%s:union/%s-initializer' % (U, fn, form)
+        if _may_be(it, mem, ctx.stale_mem):
+            rep.ob('R05.10', key + '/earlier-member-selection-survives', False,
+                   ('a %s union initializer leaves init->mem on the member selected by an EARLIER initializer of the same union sub-object: in `{[0 ... 3] = {.b = 1}, [1] = {7}}` '
+                    '(or `.u.b = 1, .u = {7}`) the later initializer must select %s and override, but the stale member (and its stale value) is emitted instead'
+                    % (form, 'its designated member' if des else 'the FIRST member')), where=where, facts={'path': ctx.trail})
+            continue
+        ok, msg, construct = True, '', 'selects-the-parsed-member'
+        if len(subs) != 1:
+            ok = False; construct = 'parse-count'; msg = 'a union initializer parses %d member initializers (expected exactly one)' % len(subs)
+        else:
+            k = _child_key(ctx, subs[0][2][2], it)
+            if des:
+                m = des[-1][1]
+                if settle(it, mem) is not m:
+                    ok = False; construct = 'designated-member-not-selected'; msg = '`.m = v` in a union does not make m the selected member (init->mem)'
+                elif 'idx' not in m.fields or k != vkey(m.fields['idx']):
+                    ok = False; construct = 'designated-member-child-mismatch'; msg = '`.m = v` in a union does not parse v into init->children[m->idx]'
+            else:
+                fobj = settle(it, first) if first is not None else None
+                if first is None or not same(it, mem, first):
+                    ok = False; construct = 'first-member-not-selected'
+                    msg = 'a union initializer without designator does not select the first member init->ty->members (init->mem is %s)' % show(mem)
+                elif not (k == 0 or (isinstance(fobj, Obj) and 'idx' in fobj.fields and k == vkey(fobj.fields['idx']))):
+                    ok = False; construct = 'first-member-child-mismatch'; msg = 'a union initializer without designator parses its value into child %s, not into the child of the first member' % show_key(k)
+        rep.ob('R05.10', key + '/' + construct, ok, msg, where=where, facts={'path': ctx.trail})
+    if seen != {'designated', 'plain'}:
+        rep.undecided('R05.10', '%s:%s:union' % (U, fn), 'union initializer forms recognised: %s' % sorted(seen))
+    # ---- union member designator inside a designation chain (`.u.m = v`, `[i].m = v`) ---------------------------
+    it = _override_interp(P, u, E, equal_is='.', cut_designation=True)
+    n = 0
+    for ctx, out in it.explore('designation', _mk_stale(E, E['TY_UNION'])):
+        if out[0] != 'ret':
+            continue
+        init = ctx.root_init
+        des = [e for e in ctx.events if e[0] == 'sdesig']
+        subs = [e for e in ctx.events if e[0] == 'sub' and e[1] in ('initializer2', 'designation')]
+        if not des:
+            continue
+        n += 1
+        m = des[-1][1]
+        mem = init.fields.get('mem')
+        where = _w(u, 'designation')
+        key = '%s:designation:union/member-designator' % U
+        if _may_be(it, mem, ctx.stale_mem):
+            rep.ob('R05.10', key + '/earlier-member-selection-survives', False,
+                   'a nested `.m = v` designator into a union leaves init->mem on the member selected by an earlier initializer: the later designator does not override', where=where, facts={'path': ctx.trail})
+            continue
+        ok, msg, construct = True, '', 'selects-the-designated-member'
+        if settle(it, mem) is not m:
+            ok = False; construct = 'designated-member-not-selected'; msg = 'a nested `.m = v` designator into a union does not make m the selected member (init->mem)'
+        elif len(subs) != 1 or 'idx' not in m.fields or _child_key(ctx, subs[0][2][2], it) != vkey(m.fields['idx']):
+            ok = False; construct = 'designated-member-child-mismatch'; msg = 'a nested `.m = v` designator into a union does not continue in init->children[m->idx]'
+        rep.ob('R05.10', key + '/' + construct, ok, msg, where=where, facts={'path': ctx.trail})
+    if n == 0:
+        rep.undecided('R05.10', '%s:designation:union' % U, 'union-designator branch of designation not recognised')
+    # ---- scalar: the expression parsed now is the one kept ------------------------------------------------------
+    scal = [E[k] for k in ('TY_INT', 'TY_PTR', 'TY_DOUBLE') if k in E]
+    if not scal:
+        raise AnalysisBroken('scalar type kinds vanished')
+    it = _override_interp(P, u, E)
+    n = 0
+    for ctx, out in it.explore(fn, _mk_stale(E, View(Cell(scal, 'init.ty.kind')))):
+        if out[0] != 'ret':
+            continue
+        init = ctx.root_init
+        asg = [e for e in ctx.events if e[0] == 'assign']
+        subs = [e for e in ctx.events if e[0] == 'sub' and e[1] == 'initializer2']
+        if subs and not asg:
+            continue            # `{ v }`: the inner call on the same node does the work (structural induction)
+        n += 1
+        ex = init.fields.get('expr')
+        good = len(asg) == 1 and settle(it, ex) is asg[0][1]
+        construct = 'expression-parsed-now-is-kept' if good else ('earlier-expression-survives' if _may_be(it, ex, ctx.stale_expr) else 'expression-not-recorded')
+        rep.ob('R05.10', '%s:%s:scalar/%s' % (U, fn, construct), good,
+               'after parsing a scalar initializer init->expr is %s instead of the expression just parsed: with `{[0 ... 3] = 1, [2] = 5}` (or any repeated designator) the '
+               'earlier value is emitted, the later initializer does not override' % show(ex), where=_w(u, fn), facts={'path': ctx.trail})
+    if n == 0:
+        rep.undecided('R05.10', '%s:%s:scalar' % (U, fn), 'scalar arm of initializer2 not recognised')
+    # ---- struct: a whole-struct copy expression of an earlier initializer is cancelled by any later initializer of the node
+    it = _override_interp(P, u, E)
+    it.models.pop('struct_initializer2', None)
+    it.cut['struct_initializer2'] = None
+
+    def h_s2(it_, ctx, n_, a):
+        _set_rest(it_, ctx, a[0], 'tok-after-struct_initializer2')
+        ctx.emit('sub', 'struct_initializer2', a, n_.line)
+        return None
+    it.cut['struct_initializer2'] = h_s2
+    forms = set()
+    for ctx, out in it.explore(fn, _mk_stale(E, E['TY_STRUCT'])):
+        if out[0] != 'ret':
+            continue
+        init = ctx.root_init
+        asg = [e for e in ctx.events if e[0] == 'assign']
+        s2 = [e for e in ctx.events if e[0] == 'sub' and e[1] == 'struct_initializer2']
+        ex = init.fields.get('expr')
+        if asg and not s2:
+            form = 'struct-valued-expression'
+            good = settle(it, ex) is asg[-1][1]
+            msg = 'after `= y` (y of the struct type) init->expr is %s, not the expression just parsed' % show(ex)
+        else:
+            form = 'brace-elided-list' if s2 else 'braced-list'
+            good = is_null(settle(it, ex))
+            msg = ('a %s parsed for a struct sub-object does not cancel the whole-struct copy expression left by an EARLIER initializer of the same sub-object (init->expr stays set): '
+                   'both back ends then emit the earlier struct value and ignore the later list, e.g. `struct S a[1] = {[0] = y, [0] = %s};`'
+                   % (form.replace('-', ' '), '{1, 2}' if form == 'braced-list' else '1, 2'))
+        forms.add(form)
+        rep.ob('R05.10', '%s:%s:struct/%s-%s' % (U, fn, form, 'overrides-earlier-copy' if good else 'keeps-earlier-copy'), good, msg,
+               where=_w(u, 'struct_initializer1' if form == 'braced-list' else fn), facts={'path': ctx.trail[-8:]})
+    if forms != {'struct-valued-expression', 'brace-elided-list', 'braced-list'}:
+        rep.undecided('R05.10', '%s:%s:struct' % (U, fn), 'struct initializer forms recognised: %s' % sorted(forms))
